@@ -29,7 +29,7 @@ RULE = (
     "choices (tied timers, ready work before/after a tied timer); judged per activation: service started exactly once "
     "with the declared input, exactly one outcome processed while current (data = that activation's own result), stale "
     "results discarded, error status without onError, nothing alive after exit/stop; distinct_nontrivial = distinct "
-    "(variant, engine, script, schedule, observed handler sequence)"
+    "(variant, engine, script, schedule, observed handler sequence); service kind childg: an invoked child machine that owns a grandchild registered under a systemId, scripts of at most one operation after GO - when the activation has ended nothing of its subtree is left running or registered"
 )
 BOUNDS = {
     "quick": "scripts of length <=2 after the initial GO, 4-point grid, all schedule choices; sync threads: caller leaving / re-entering while the invoked child machine finishes, <=1 preemption and <=2 non-default choices",
@@ -64,6 +64,9 @@ def variants() -> List[tuple]:
                 # the invoking state is COMPOUND and GO targets one of its descendants (entry through an explicit child
                 # path), SELF still targets the state itself
                 out.append((kind, outcome, onerr, "plain", "compound"))
+    # the invoked child machine owns a GRANDCHILD registered under a systemId (explored with short scripts only: every
+    # additional virtual thread multiplies the schedule choices)
+    out.append(("childg", "return", True, "plain"))
     return out
 
 
@@ -103,7 +106,7 @@ def make(variant, rec, clock) -> Dict[str, Any]:
 
     def od(interp, ctx, ev, ad):
         data = ev.data
-        if kind == "child":
+        if kind in ("child", "childg"):
             data = "child-done"
         rec.log.append(("OD", jsonable(data) if not isinstance(data, BaseException) else repr(data), clock()))
 
@@ -115,6 +118,12 @@ def make(variant, rec, clock) -> Dict[str, Any]:
 
     child_machine = None
     if kind == "child":
+        child_machine = create_machine(
+            {"id": "kid", "initial": "run", "context": {"c": 1},
+             "states": {"run": {"after": {"250": "fin"}}, "fin": {"type": "final"}}},
+            logic=MachineLogic(),
+        )
+    elif kind == "childg":
         # the invoked child owns a GRANDCHILD registered under a systemId: whatever ends the activation (exit, completion,
         # stop) must take the whole subtree with it
         grand = create_machine({"id": "grand", "initial": "x", "states": {"x": {}}}, logic=MachineLogic())
@@ -146,7 +155,7 @@ def make(variant, rec, clock) -> Dict[str, Any]:
         cfg["states"]["work"].update(initial="w1", states={"w1": {}, "w2": {}})
         for st in ("idle", "ok", "err"):
             cfg["states"][st]["on"]["GO"] = "#m.work.w2"
-    svc = {"coro": coro, "callable": plain, "child": child_machine}[kind]
+    svc = {"coro": coro, "callable": plain, "child": child_machine, "childg": child_machine}[kind]
     return dict(cfg=cfg, services={"S": svc}, actions={"od": od, "oe": oe},
                 guards={"first": lambda ctx, ev, p=None: not ctx.get("bounced")})
 
@@ -230,7 +239,7 @@ def judge(variant, engine, script, log, d) -> List[Tuple[str, str]]:
                 bad.append(("handler-without-activation", f"{e}"))
                 continue
             owner["outcomes"].append(e)
-            if kind != "child":
+            if kind not in ("child", "childg"):
                 if not owner["calls"]:
                     bad.append(("outcome-without-service-start", f"{e} for activation {owner['idx']}"))
                 else:
@@ -257,7 +266,7 @@ def judge(variant, engine, script, log, d) -> List[Tuple[str, str]]:
     o = d.observe()
     for a in acts:
         zero_length = a["end"] is not None and abs(a["end"] - a["start"]) < EPS
-        if kind != "child" and len(a["calls"]) != 1 and not (zero_length and len(a["calls"]) == 0):
+        if kind not in ("child", "childg") and len(a["calls"]) != 1 and not (zero_length and len(a["calls"]) == 0):
             # an activation left within the macrostep that entered it may be left before the
             # (deferred) start; anything else must start the service exactly once
             bad.append(("service-start-count", f"activation {a['idx']} started the service {len(a['calls'])} times"))
@@ -344,7 +353,7 @@ def run_one(variant, engine, script, prefix=None, tier="quick"):
     # child machines poll on a timer, which ties with almost every grid instant: the
     # schedule tree is explored up to a deviation bound there (iterative bounding)
     bound = None
-    if variant[0] == "child":
+    if variant[0] in ("child", "childg"):
         bound = 2 if tier == "quick" else 3
     n, capped = explore(run, on_exec=on_exec, max_execs=5000, bound=bound)
     return results, n, capped
@@ -370,9 +379,10 @@ def units(tier: str) -> List[Any]:
         for engine in ("sync", "async"):
             if not applicable(v, engine):
                 continue
-            size = 40 if v[0] != "child" else 12
-            for i in range(0, len(sc), size):
-                us.append((v, engine, sc[i:i + size], tier))
+            size = 40 if v[0] not in ("child", "childg") else 12
+            vsc = sc if v[0] != "childg" else [x for x in sc if len(x) <= 2]   # the initial GO + at most one operation
+            for i in range(0, len(vsc), size):
+                us.append((v, engine, vsc[i:i + size], tier))
     return us
 
 
@@ -386,7 +396,7 @@ def run_unit(unit):
         return r
     variant, engine, batch, tier = unit
     res = dict(states=0, transitions=0, executions=0, evaluations=0, distinct=[], violations=[], samples=[], caps=[])
-    if variant[0] == "child":
+    if variant[0] in ("child", "childg"):
         res["caps"].append("child-machine src: schedules explored up to deviation bound %d" % (2 if tier == "quick" else 3))
     for script in batch:
         results, n, capped = run_one(variant, engine, script, tier=tier)
